@@ -612,3 +612,65 @@ func (g *c07Gen) genPure() *c07Case {
 	}
 	return cs
 }
+
+// genHistory: 2-4 steps on one manager.  The auctioneer's maximum account value
+// changes between the steps; most histories end with a deposit whose resulting
+// value lies around the maximum in force (just above a lowered one, exactly at
+// it, or below a raised one).
+func (g *c07Gen) genHistory() *c07Case {
+	h := &c07Case{Kind: "history"}
+	n := 1 + g.n(3)
+	for i := 0; i < n; i++ {
+		var st *c07Case
+		switch x := g.n(100); {
+		case x < 35:
+			st = &c07Case{Kind: "quote", Max: []int64{1000000000, 500000000, 2000000}[g.n(3)]}
+			st.Acct.Value = g.i64(50000, 3000000)
+			if g.n(3) == 0 {
+				st.Acct.Value = st.Max + g.i64(-1, 1)
+			}
+		case x < 80:
+			st = g.genOp()
+			for st.Kind != "deposit" {
+				st = g.genOp()
+			}
+			st.Acct.State, st.NewVer, st.ExpH, st.Faults = 3, st.Acct.Version, 0, "000"
+			st.TermsFail = false
+		default:
+			st = g.genOp()
+		}
+		h.Steps = append(h.Steps, *st)
+	}
+	// the last step: a well-formed deposit around the maximum now in force
+	d := g.genOp()
+	for d.Kind != "deposit" {
+		d = g.genOp()
+	}
+	d.Acct.State, d.NewVer, d.ExpH, d.Faults = 3, d.Acct.Version, 0, "000"
+	d.TermsFail, d.FundFail, d.FundBad, d.HasChV, d.NoChange = false, false, "", false, false
+	if d.Acct.Expiry <= d.Best {
+		d.Acct.Expiry = clamp32(int64(d.Best) + 1000)
+	}
+	d.Amount = g.i64(1000, 3000000)
+	nv := d.Acct.Value + d.Amount
+	switch x := g.n(100); {
+	case x < 45:
+		d.Max = nv - g.i64(1, 2000) // lowered below the resulting value: must be refused
+	case x < 60:
+		d.Max = nv // exactly the maximum
+	case x < 80:
+		d.Max = nv + g.i64(1, 100000)
+	default:
+		d.Max = 1000000000
+	}
+	if len(d.FundIns) > 0 {
+		d.FundIns = d.FundIns[:1]
+		d.FundIns[0].V = d.Amount + 3000000
+		d.FundIns[0].Hash = g.hash()
+		if d.FundIns[0].Redeem == 0 && len(d.FundIns[0].S) != 44 && len(d.FundIns[0].S) != 68 {
+			d.FundIns[0].S = hex.EncodeToString(g.script(0))
+		}
+	}
+	h.Steps = append(h.Steps, *d)
+	return h
+}
